@@ -370,19 +370,66 @@ class FakeDevice:
 
 
 # ---------------------------------------------------------------- a running bridge fed over loopback UDP
-def free_udp_ports(n):
-    """n UDP ports that are free now, drawn at random below the kernel's ephemeral range (32768+) so that no other process's
-    outgoing socket and (almost surely) no concurrently running check lands on them"""
-    import socket
-    sysrnd = random.SystemRandom(); ps = []
-    while len(ps) < n:
-        p = sysrnd.randrange(21000, 32000)
-        if p in ps: continue
-        s = socket.socket(socket.AF_INET, socket.SOCK_DGRAM)
-        try: s.bind(("0.0.0.0", p)); ps.append(p)
+_PORT_DIR = os.path.join("/dev/shm" if os.path.isdir("/dev/shm") else __import__("tempfile").gettempdir(), "aioswitcher-verif-ports")
+_MINE = []          # ports reserved by this process (lock files naming our pid), handed out round-robin
+_NEXT = [0]
+
+
+def _reserve(p):
+    """system-wide reservation of a UDP port number among all running checks (they may run in parallel, also from other copies of
+    /verif): an O_EXCL lock file naming the owner's pid; the file of a dead owner is taken over"""
+    os.makedirs(_PORT_DIR, exist_ok=True); path = os.path.join(_PORT_DIR, str(p))
+    for _ in range(2):
+        try:
+            fd = os.open(path, os.O_CREAT | os.O_EXCL | os.O_WRONLY); os.write(fd, str(os.getpid()).encode()); os.close(fd); return True
+        except FileExistsError:
+            try: owner = int(open(path).read() or "0")
+            except (OSError, ValueError): return False
+            try:
+                if owner: os.kill(owner, 0)
+                return False                      # the owner is alive (or the file is being written)
+            except ProcessLookupError:
+                try: os.unlink(path)
+                except OSError: return False
+            except PermissionError: return False
+    return False
+
+
+def _release_all():
+    for p in _MINE:
+        try: os.unlink(os.path.join(_PORT_DIR, str(p)))
         except OSError: pass
-        finally: s.close()
-    return ps
+    _MINE.clear()
+__import__("atexit").register(_release_all)
+
+
+def _bindable(p):
+    import socket
+    s = socket.socket(socket.AF_INET, socket.SOCK_DGRAM)
+    try: s.bind(("0.0.0.0", p)); return True
+    except OSError: return False
+    finally: s.close()
+
+
+def free_udp_ports(n):
+    """n UDP ports that are free now, below the kernel's ephemeral range (32768+) so that no outgoing socket lands on them, and
+    reserved for this process among all running checks: a probe bind that fails on one of them is then the bridge under test (or
+    the harness's own foreign socket), not a neighbour"""
+    sysrnd = random.SystemRandom()
+    def grow():
+        for _ in range(2000):
+            p = sysrnd.randrange(21000, 32000)
+            if p not in _MINE and _bindable(p) and _reserve(p): _MINE.append(p); return
+        raise lib.BuildError("no free UDP port could be reserved")
+    while len(_MINE) < 32: grow()
+    out = []; scanned = 0
+    while len(out) < n:
+        if scanned >= len(_MINE):             # the whole block was looked at (a bridge under test may have left sockets open): extend it
+            if len(_MINE) >= 1024: raise lib.BuildError("no free UDP port among %d reserved ones" % len(_MINE))
+            grow(); _NEXT[0] = len(_MINE) - 1
+        p = _MINE[_NEXT[0] % len(_MINE)]; _NEXT[0] += 1; scanned += 1
+        if p not in out and _bindable(p): out.append(p)
+    return out
 
 
 async def feed_bridge(n_ports, events, raising=(), show=None, sentinel=None, serial=False, restarts=0):
